@@ -271,6 +271,14 @@ func judgeCell(r *core.Run, c Cell) {
 
 // --- signing side ---------------------------------------------------------------------
 
+func usedMark(kinds []string) []string {
+	out := make([]string, len(kinds))
+	for i, k := range kinds {
+		out[i] = "used:" + k
+	}
+	return out
+}
+
 func signCells(r *core.Run) {
 	// NewLocalSigner over all (leaf key, private key) pairs
 	for _, lk := range pki.AllKinds {
@@ -351,7 +359,11 @@ func signCells(r *core.Run) {
 	}
 	for _, mt := range []string{sims.JWS, sims.COSE} {
 		for _, spec := range specs {
-			for _, lk := range pki.AllKinds {
+			for _, lk := range append(append([]string{}, pki.AllKinds...), usedMark(pki.AllKinds)...) {
+				// "used:<kind>": the envelope object has already signed (and read
+				// back) an honest envelope for the same leaf
+				used := strings.HasPrefix(lk, "used:")
+				lk = strings.TrimPrefix(lk, "used:")
 				r.Eval(1)
 				ch := chainFor(lk)
 				rs := &sims.RemoteSigner{Key: ch.Keys[0], Spec: spec, Chain: ch.Certs}
@@ -359,6 +371,20 @@ func signCells(r *core.Run) {
 				var raw []byte
 				var err error
 				desc := fmt.Sprintf("Sign(%s, remote signer declaring %+v, chain leaf %s)", mtName(mt), spec, lk)
+				if used {
+					prior := lk
+					if _, ok := table[prior]; !ok {
+						prior = "p256"
+					}
+					hs, _ := sims.NewLocal(chainFor(prior))
+					core.Guard(func() {
+						if _, e := env.Sign(sims.BaseRequest(mt, hs, signature.SigningSchemeX509)); e == nil {
+							env.Content()
+							r.Count("remote-sign-on-used-object", 1)
+						}
+					})
+					desc += " on an object that had signed for a " + prior + " leaf before"
+				}
 				if p := core.Guard(func() { raw, err = env.Sign(sims.BaseRequest(mt, rs, signature.SigningSchemeX509)) }); p != nil {
 					r.Violation("remote-sign-panic", desc+" panicked: "+p.Value, desc)
 					continue
